@@ -744,7 +744,10 @@ func writeTypeConversion(w *formatting.IndentedWriter, typeChange dsl.TypeChange
 			return
 		}
 
-		fmt.Fprintf(w, "%s.resize(%s.size());\n", targetName, sourceName)
+		if v, ok := tc.NewType().(*dsl.GeneralizedType).Dimensionality.(*dsl.Vector); !ok || v.Length == nil {
+			// a fixed-length vector is a std::array, which already has its size
+			fmt.Fprintf(w, "%s.resize(%s.size());\n", targetName, sourceName)
+		}
 		fmt.Fprintf(w, "for (size_t i = 0; i < %s.size(); i++) {\n", sourceName)
 		w.Indented(func() {
 			tmpItemName := "item"
